@@ -14,6 +14,10 @@ use std::process::{Command, Stdio};
 use std::sync::mpsc;
 use std::time::Duration;
 
+fn timeout_s() -> u64 {
+    std::env::var("HARNESS_TIMEOUT").ok().and_then(|s| s.parse().ok()).unwrap_or(20)
+}
+
 fn worker() {
     let stdin = std::io::stdin();
     let stdout = std::io::stdout();
@@ -91,7 +95,7 @@ fn farm(lines: Vec<String>, jobs: usize, out: &mut dyn Write) -> (usize, usize) 
                     if writeln!(cin, "{}", chunk[idx]).and_then(|_| cin.flush()).is_err() {
                         died = true;
                     }
-                    let got = if died { Err(mpsc::RecvTimeoutError::Disconnected) } else { lrx.recv_timeout(Duration::from_secs(20)) };
+                    let got = if died { Err(mpsc::RecvTimeoutError::Disconnected) } else { lrx.recv_timeout(Duration::from_secs(timeout_s())) };
                     match got {
                         Ok(l) => {
                             tx.send(l).unwrap();
@@ -105,8 +109,13 @@ fn farm(lines: Vec<String>, jobs: usize, out: &mut dyn Write) -> (usize, usize) 
                             let _ = child.kill();
                             let status = child.wait().ok().map(|s| format!("{s}")).unwrap_or_default();
                             let vec: J = serde_json::from_str(&chunk[idx]).unwrap_or(J::Null);
-                            let res = json!({"id": vec["id"], "ok": false, "crash": why, "why": format!("worker {why} ({status})"),
-                                             "text": enc::to_text(&vec["prog"]).unwrap_or_default(), "vec": vec});
+                            let text = vec.get("text").and_then(|t| t.as_str()).map(|s| s.to_string()).unwrap_or_else(|| enc::to_text(&vec["prog"]).unwrap_or_default());
+                            let res = if vec["mode"] == "record" {
+                                // a run that does not come back is recorded as such; the trace spec is not asked about it
+                                json!({"id": vec["id"], "ok": true, "skipped": format!("worker {why} ({status})"), "crash": why, "text": text})
+                            } else {
+                                json!({"id": vec["id"], "ok": false, "crash": why, "why": format!("worker {why} ({status})"), "text": text, "vec": vec})
+                            };
                             tx.send(res.to_string()).unwrap();
                             idx += 1;
                             died = true;
@@ -141,7 +150,17 @@ fn farm(lines: Vec<String>, jobs: usize, out: &mut dyn Write) -> (usize, usize) 
 fn record_one(case: &J) -> J {
     use jaq_core::load::{parse, Lexer, Parser};
     let id = case["id"].clone();
-    let text = case["text"].as_str().unwrap_or("");
+    let printed;
+    let text = match case.get("text").and_then(|t| t.as_str()) {
+        Some(t) => t,
+        None => match enc::to_text(&case["prog"]) {
+            Ok(t) => {
+                printed = t;
+                &printed
+            }
+            Err(e) => return json!({"id": id, "ok": true, "skipped": format!("unprintable: {e}")}),
+        },
+    };
     let skip = |why: String| json!({"id": id, "ok": true, "skipped": why, "text": text});
     let tokens = match Lexer::new(text).lex() {
         Ok(t) => t,
